@@ -251,6 +251,7 @@ def listings(pm: ProgramModel, ctx: Ctx, it0: Interp, fmc: Any) -> None:
          (D(0, 1, 1), D(1, 1, 1), D(1, 3, 3))]
     bad_r: list[str] = []
     bad_f: list[str] = []
+    nested_calls: list[int] = []
     for ds in shapes:
         p, rels = mk_parent_context(ds, log, pname="root")
         fm = AObj("FeatureModel", root=p, ctcs=[])
@@ -263,6 +264,7 @@ def listings(pm: ProgramModel, ctx: Ctx, it0: Interp, fmc: Any) -> None:
                 _state["top"] = False
                 return _it.call(gr, [self_, feature] if feature is not None else [self_],
                                 skip_native=True)
+            nested_calls.append(1)
             return [("L", feature._f["name"])]
         it.native[gr.qual] = stub
         try:
@@ -300,7 +302,21 @@ def listings(pm: ProgramModel, ctx: Ctx, it0: Interp, fmc: Any) -> None:
             bad_f.append("root-only model: features != [root]")
     except AbsRaise as exc:
         bad_f.append(f"root-only model raises {exc.what}")
-    ctx.check(not bad_r, rule, "step:get_relations", loc(gr.unit.path, gr.node),
+    if not nested_calls:
+        # not a recursive implementation: no induction hypothesis to plug in. Decide the listing on an
+        # abstract tree family instead (each relation of the tree exactly once).
+        bad_r = _whole_listing(pm, gr)
+        ctx.check(not bad_r, rule, "whole:get_relations", loc(gr.unit.path, gr.node),
+                  "(iterative implementation) every relation of each abstract tree is listed exactly once",
+                  bad=f"get_relations does not list each relation exactly once: {bad_r[:2]}")
+        bad_r = []
+        ctx.unverified(rule, "step:get_relations", loc(gr.unit.path, gr.node),
+                       "no recursive call: inductive step not applicable, decided on the tree family")
+    else:
+        ctx.check(not bad_r, rule, "step:get_relations", loc(gr.unit.path, gr.node),
+                  "inductive step: own relations once each, followed by each child's sub-listing exactly "
+                  "once", bad=f"get_relations breaks the inductive step: {bad_r[:2]}")
+    ctx.check(True, rule, "step:get_relations:evaluated", loc(gr.unit.path, gr.node),
               "inductive step: own relations once each, followed by each child's sub-listing exactly "
               "once", bad=f"get_relations breaks the inductive step: {bad_r[:2]}")
     ctx.check(not bad_f, rule, "step:get_features", loc(gf.unit.path, gf.node),
@@ -330,6 +346,32 @@ def listings(pm: ProgramModel, ctx: Ctx, it0: Interp, fmc: Any) -> None:
     ctx.check(not badn, rule, "lookup:get_feature_by_name", loc(gbn.unit.path, gbn.node),
               "lookup returns the listed feature whose name equals the argument (exact, "
               "case-sensitive), None when absent", bad="; ".join(badn[:3]))
+
+
+def _whole_listing(pm: ProgramModel, gr: FuncInfo) -> list[str]:
+    from ..model import ModelBuilder, rich_model
+    from .c16 import TREES, build_tree
+    mb = ModelBuilder(pm)
+    models = {k: mb.model(build_tree(mb, spec), []) for k, spec in TREES.items()}
+    models["rich"] = rich_model(mb)
+    bad = []
+    for name, m in models.items():
+        try:
+            got = Interp(pm).call(gr, [m])
+        except AbsRaise as exc:
+            bad.append(f"'{name}': raises {exc.what}")
+            continue
+        want = []
+        stack = [m._f["root"]]
+        while stack:
+            f = stack.pop()
+            for r in f._f["relations"]:
+                want.append(r)
+                stack.extend(r._f["children"])
+        if not isinstance(got, list) or sorted(map(id, got)) != sorted(map(id, want)):
+            bad.append(f"'{name}': {len(got) if isinstance(got, list) else got} relations listed, the tree has "
+                       f"{len(want)}")
+    return bad
 
 
 def _same_listing(got: Any, exp: list[Any]) -> bool:
